@@ -330,7 +330,9 @@ class Emitter(object):
         c = e["size_class"]
         # 1: big trivially copyable   2: non-trivial copy + dtor (tracked)   3: potentially-throwing move (tracked, heap in backmp11)
         # 4: self-referential (tracked)   5: 512 bytes, alignas(64) (tracked)   6: 1-byte payload beyond the header, odd size (tracked)
-        npad = {1: 192, 2: 24, 3: 40, 4: 16, 5: 448, 6: 1}[c]
+        # 7: user-provided copy constructor, defaulted (trivial) move constructor, trivial destructor, small: not trivially copyable but
+        #    trivially move-constructible (third seeded defect C20); not instance-counted (its destructor must stay trivial)
+        npad = {1: 192, 2: 24, 3: 40, 4: 16, 5: 448, 6: 1, 7: 12}[c]
         align = "alignas(64) " if c == 5 else ""
         w("struct %s%s : EvBase {" % (align, n))
         w("  static constexpr int SIM_EV = %d;" % i)
@@ -342,6 +344,13 @@ class Emitter(object):
         if c == 1:
             w("  %s() { occ = sim::OCC_UNKNOWN; chk = 0; fill(); }" % n)
             w("  explicit %s(int32_t o) { occ = o; chk = sim::chk_of_occ(o); fill(); }" % n)
+            w("  bool sim_verify() const { return pad_ok(); }")
+        elif c == 7:
+            w("  %s() { occ = sim::OCC_UNKNOWN; chk = 0; fill(); }" % n)
+            w("  explicit %s(int32_t o) { occ = o; chk = sim::chk_of_occ(o); fill(); }" % n)
+            w("  %s(const %s& o) : EvBase(o) { for (unsigned k = 0; k < sizeof pad; ++k) pad[k] = o.pad[k]; }" % (n, n))
+            w("  %s(%s&&) = default;" % (n, n))
+            w("  %s& operator=(const %s& o) { occ = o.occ; chk = o.chk; for (unsigned k = 0; k < sizeof pad; ++k) pad[k] = o.pad[k]; return *this; }" % (n, n))
             w("  bool sim_verify() const { return pad_ok(); }")
         else:
             selfinit = " self = pad;" if c == 4 else ""
@@ -1029,7 +1038,7 @@ def emit_desc(n):
     for f in n.flags:
         w("  d.flag_names.push_back(%s);" % cstr(f))
     w("  d.serializable = %s;" % ("true" if n.spec.get("serialize") else "false"))
-    w("  d.tracked = %s;" % ("true" if any(e["size_class"] >= 2 for e in n.events) else "false"))
+    w("  d.tracked = %s;" % ("true" if any(2 <= e["size_class"] <= 6 for e in n.events) else "false"))
     w("  d.spec_json = %s;" % cstr(to_json(n.spec)))
     w("  return d;")
     w("}")
